@@ -1183,7 +1183,12 @@ def gen_recover(tree):
             inner = node.value.func.value
             fname = inner.func.attr if isinstance(inner.func, ast.Attribute) else ast.unparse(inner.func)
             try:
-                el = iexpr(inner.args[0]) if len(inner.args) == 1 and not inner.keywords else "untranslatable_elapsed"
+                if len(inner.args) == 1 and not inner.keywords:
+                    el = iexpr(inner.args[0])
+                elif not inner.args and [k_.arg for k_ in inner.keywords] == ["elapsed_temporal_unit"]:
+                    el = iexpr(inner.keywords[0].value)          # (the elapsed time passed by keyword)
+                else:
+                    el = "untranslatable_elapsed"
             except Untranslatable as u:
                 el = f"(untranslatable_elapsed {lstr(str(u))})"
             arg = node.value.args[0] if node.value.args else None
